@@ -47,6 +47,11 @@ type Case struct {
 	// above what a history can use, GC-isolated).
 	Base  string `json:"base,omitempty"`
 	Stmts []Stmt `json:"stmts"`
+	// Bulk > 0: instead of Stmts the worker runs BulkRounds rounds that each
+	// create and drop Bulk releasable userdata while Lua keeps executing
+	// (the release path under load; see checkBulk).
+	Bulk       int `json:"bulk,omitempty"`
+	BulkRounds int `json:"bulk_rounds,omitempty"`
 }
 
 const baseCPU = 500000000
